@@ -388,6 +388,7 @@ class CMSSystem(System):
             call(recv.join, f)
 
     def _queries(self, cfg, st, keys, hf, bad):
+        pristine = self.clone(st)  # taken before any query of this state: the "untouched" twin
         f = st.impl
         kind = cfg["cls"]
         before = observation(f, kind)
@@ -396,7 +397,7 @@ class CMSSystem(System):
         if before != after:
             bad("C19", "cms.queries_do_not_mutate", {"before": repr(before)[:300], "after": repr(after)[:300], "cls": kind})
         if self.cur_depth <= cfg.get("twin_depth", 2):
-            div = twin_divergence(self, cfg, st, lambda q: self._ro(cfg, q.impl, keys, hf), lambda x: observation(x.impl, kind))
+            div = twin_divergence(self, cfg, pristine, lambda q: self._ro(cfg, q.impl, keys, hf), lambda x: (observation(x.impl, kind), [call(x.impl.check, k) for k in keys]), 2 if self.cur_depth <= 1 else 1)
             if div is not None:
                 bad("C19", "cms.queried_twin_diverges_one_step_later", div)
         bb = call(bytes, f)
